@@ -58,7 +58,8 @@ def main():
         ran.append({"cmd": "cargo test --offline (with change)", "result": out.strip().splitlines()})
         shutil.copy(os.path.join(sd, "demo.rs"), demo_dst)
         rc, out = sh(demo_cmd + " 2>&1 | grep -E '^test result|^test .*FAILED|^error' | head -8", cwd=jm)
-        demo_fails_with = "FAILED" in out
+        # a demonstration may also fail by no longer compiling (a lost auto trait shows as error[E0277])
+        demo_fails_with = "FAILED" in out or ("error" in out and "test result: ok" not in out)
         ran.append({"cmd": demo_cmd + " (with change)", "result": out.strip().splitlines()})
         sh("git checkout -- .", cwd=wt)
         rc, out = sh(demo_cmd + " 2>&1 | grep -E '^test result|^test .*FAILED|^error' | head -8", cwd=jm)
